@@ -46,7 +46,7 @@ def observe_fix(parser, tp, x, chan):
     except ty.NotAbstractable as ex:
         return {"error": f"result outside the model: {ex}"}
     o = {"kind": "fix", "first": first, "vok": True, "sok": True, "second": {"k": "none", "v": 0}, "rok": True, "dsame": True,
-         "jrok": True, "jdsame": True, "ser": dict(NONE), "ser2": dict(NONE), "jser": dict(NONE), "jser2": dict(NONE), "notes": {}}
+         "jrok": True, "jdsame": True, "draised": False, "jdraised": False, "ser": dict(NONE), "ser2": dict(NONE), "jser": dict(NONE), "jser2": dict(NONE), "notes": {}}
     try:
         parser.validate(cfg.clone())
     except Exception as ex:
@@ -68,6 +68,7 @@ def observe_fix(parser, tp, x, chan):
             d1 = parser.dump(cfg.clone(), format=fmt)
         except Exception as ex:
             o[rk] = o[dk] = False
+            o["draised" if fmt == "yaml" else "jdraised"] = True
             o["notes"][fmt] = f"dump raised {type(ex).__name__}: {str(ex)[:200]}"
             continue
         o[sk] = tree_of(stock, d1)
@@ -116,7 +117,7 @@ def run_jobs(jobs, procs=16):
         return pool.map(_work, jobs, chunksize=max(1, len(jobs) // (procs * 8)))
 
 
-DUMP_KEYS = {"setOrder": "set-order", "serCollision": "set-written-with-duplicates", "yamlFloatStr": "yaml-float-string", "inPlace": "reparse-union-in-place",
+DUMP_KEYS = {"setOrder": "set-order", "jsonKeyCollision": "json-key-collision", "serLenient": "serialize-lenient-member", "setListing": "reparse-set-listing-order", "serCollision": "set-written-with-duplicates", "yamlFloatStr": "yaml-float-string", "inPlace": "reparse-union-in-place",
              "leftObject": "enum-member-first-leaves-object", "leftSet": "enum-member-first-leaves-set",
              "excLeak": "reparse-union-vals-last", "origNested": "reparse-union-orig-nested", "litEq": "reparse-literal-eq", "dictKey": "reparse-dict-key"}
 
